@@ -302,8 +302,8 @@ def run(chk, replay=None):
     for ci, case in enumerate(cases):
         conf = dict(case['conf'])
         cats = [[dict(e, b=e['b']) for e in cat] for cat in case['cats']]
-        conf['ncat_given'] = not (conf['src'] == 'list' and ci % 4 == 3)
-        conf['real'] = ['stmt', 'mct', 'both'][(ci // 3) % 3]
+        conf['ncat_given'] = not (conf['src'] == 'list' and rng.random() < 0.25)
+        conf['real'] = rng.choice(['stmt', 'mct', 'both'])
         tr = run_history(world, conf, cats, case['hist'], path, rec, seed=ci)
         chk.count()
         if 'aborted' in tr:
